@@ -791,7 +791,7 @@ func vsExecC31(t *testing.T, c *sim.Case) *sim.Result {
 			sim.Beat()
 			obs := vsDeliver(srv, stub, parseMode, chunks, res)
 			res.Steps++
-			vsJudgeC31(res, c, di, modeName, declared, lead, stream, obs)
+			vsJudgeC31(res, c, di, modeName, declared, frames, lead, stream, obs)
 			if len(res.Violations) > 8 {
 				break
 			}
@@ -807,7 +807,7 @@ func vsExecC31(t *testing.T, c *sim.Case) *sim.Result {
 	return res
 }
 
-func vsJudgeC31(res *sim.Result, c *sim.Case, di int, mode, declared string, lead []vsFrame, stream []byte, obs *vsObs) {
+func vsJudgeC31(res *sim.Result, c *sim.Case, di int, mode, declared string, allFrames, lead []vsFrame, stream []byte, obs *vsObs) {
 	res.Trace.Add("delivery %d mode=%s bytes=%d sent=%d returned=%v replies=%dB calls=%d parsed=%d err=%v",
 		di, mode, len(stream), obs.sent, obs.returned, len(obs.replyRaw), len(obs.calls), len(obs.parsed), obs.parseErr)
 	sigMode := map[string]string{"mode": mode}
@@ -858,8 +858,8 @@ func vsJudgeC31(res *sim.Result, c *sim.Case, di int, mode, declared string, lea
 					break
 				}
 				cause := "other"
-				for _, f := range lead {
-					if len(f.args) > 0 && bytes.ContainsAny(f.args[0], "\r\n") {
+				for _, f := range allFrames {
+					if f.kind == "arr" && len(f.args) > 0 && bytes.ContainsAny(f.args[0], "\r\n") {
 						cause = "crlf_in_command_name"
 					}
 				}
